@@ -2267,6 +2267,26 @@ impl RelationalEngine {
         Ok(engine)
     }
 
+    /// Re-derives the engine's in-memory state from the store after the store's content was
+    /// replaced underneath the engine (`TensorStore::restore_from_bytes`, i.e. `ROLLBACK TO`).
+    ///
+    /// B-tree indexes, the constraint cache, the foreign-key graph, the table count and the row
+    /// counters are caches of what the store holds; without this they keep describing the
+    /// content from before the restore (e.g. range queries miss rows the restore brought back).
+    ///
+    /// # Errors
+    /// Returns `RelationalError::StorageError` if reading persisted index data fails.
+    pub fn resync_after_restore(&self) -> Result<()> {
+        let _ddl_guard = self.ddl_lock.write();
+        self.rebuild_btree_indexes()?;
+        self.constraint_cache.clear();
+        self.fk_references.write().clear();
+        self.row_counters.clear();
+        self.table_count
+            .store(self.store.scan("_meta:table:").len(), Ordering::Release);
+        Ok(())
+    }
+
     /// Rebuilds `RelationalSlab` table structures from persisted metadata.
     ///
     /// After WAL recovery, the `TensorStore` has table metadata but the
